@@ -27,6 +27,24 @@ THEOREMS = {
         "Dawgs.C13.Props.c13_seq_current_refuted",
         "Dawgs.C13.Props.c13_full",
         "Dawgs.C13.Props.c13_full_old_refuted",
+        "Dawgs.C13.Props.api_complete",
+        "Dawgs.C13.Props.commutative_contains",
+    ],
+    "Dawgs.Props.C13Conc": [
+        "Dawgs.C13.ConcProps.wrapper_linearizable_sets",
+        "Dawgs.C13.ConcProps.checkedAdd_atomic",
+        "Dawgs.C13.ConcProps.operand_snapshot_semantics",
+        "Dawgs.C13.ConcProps.or_not_jointly_atomic",
+        "Dawgs.C13.ConcProps.wrapper_mutex_reduction",
+        "Dawgs.C13.ConcProps.simplex_mutex_reduction",
+        "Dawgs.C13.ConcProps.each_delegate_other_wrapper",
+        "Dawgs.C13.ConcProps.each_self_deadlocks",
+        "Dawgs.C13.ConcProps.clone_fresh_lock",
+    ],
+    "Dawgs.Props.C13Roaring": [
+        "Dawgs.C13.RoaringProps.roaring64_xor_self_panics_refuted",
+        "Dawgs.C13.RoaringProps.roaring64_xor_shares_containers_refuted",
+        "Dawgs.C13.RoaringProps.roaring32_xor_mutates_operand_refuted",
     ],
 }
 
@@ -95,13 +113,15 @@ SPEC = {
     "title": "ID-set providers implement exact set algebra across all implementation pairings",
     "level": "proof",
     "regen": regen,
-    "lean_modules": ["Dawgs.Props.C13"],
+    "lean_modules": ["Dawgs.Props.C13", "Dawgs.Props.C13Conc", "Dawgs.Props.C13Roaring"],
     "theorems_by_module": THEOREMS,
     "gate_modules": ["Dawgs.Model.C13", "Dawgs.Model.C13Lts", "Dawgs.Model.C13Facts", "Dawgs.Spec.C13", "Dawgs.Proofs.C13",
-                     "Dawgs.Proofs.C13Lts", "Dawgs.Props.C13", "Dawgs.Generated.C13_locks"],
+                     "Dawgs.Proofs.C13Lts", "Dawgs.Props.C13", "Dawgs.Props.C13Conc", "Dawgs.Props.C13Roaring", "Dawgs.Model.C13Roaring",
+                     "Dawgs.Generated.C13_locks"],
     "suites": [
         {"name": "c13", "model_suite": "c13", "monitor_suite": "c13mon", "keep_prefix": 2, "shrink_budget": 40, "thorough_seeds": 2},
         {"name": "x13", "monitor_suite": "c13mon", "keep_prefix": 2, "shrink_budget": 25, "thorough_seeds": 1},
+        {"name": "heap13", "model_suite": "c13heap", "monitor_suite": "c13mon", "keep_prefix": 2, "shrink_budget": 25, "thorough_seeds": 1},
         {"name": "conc13", "model_suite": "c13", "monitor_suite": "c13mon", "keep_prefix": 2, "shrink_budget": 25, "thorough_seeds": 2},
     ],
     "nontrivial": nontrivial,
@@ -116,12 +136,12 @@ SPEC = {
             "a binary operation returned with a non-empty receiver or operand, or a deadlock/panic/concurrent run was observed; distinct = distinct "
             "op-line sequences (sha1)",
     "expected_branches": ["path.native", "path.fallback", "path.non-duplex-operand", "operand.self.b32", "operand.self.b64",
-                          "abba.returned", "pairs.runs", "operand.self.ts32", "operand.self.ts64", "gen.dense_run", "gen.exhaustive_cases", "gen.run_cases", "gen.alias64_cases",
+                          "abba.returned", "pairs.runs", "op.comm", "gen.heap_cases", "op.toids", "op.kindor", "toidsrace.runs", "caddrace.runs", "op.eachcall.ts32/ts32", "op.eachcall.ts64/ts64", "operand.self.ts32", "operand.self.ts64", "gen.dense_run", "gen.exhaustive_cases", "gen.run_cases", "gen.alias64_cases",
                           "conc.runs", "pair.and.b32/ts32", "pair.and.ts32/ts32", "pair.and.b64/ts64", "pair.and.ts64/ts64",
                           "pair.xor.ts64/b64", "pair.or.ts32/b32"],
-    "trusted_base": ["RoaringBitmap v2.19.0 native operations assumed to be exact sets (Add, Remove, Contains, Or, And, AndNot, Xor, Clone, Clear, "
-                     "ToArray, iterator without concurrent modification) — the tie refutes this for the in-place Xor (three known findings) and the "
-                     "model reproduces the immediate effects only",
+    "trusted_base": ["RoaringBitmap v2.19.0 native operations assumed to be exact sets (Add, Remove, Contains, Or, And, AndNot, Clone, Clear, "
+                     "ToArray, iterator without concurrent modification); the in-place Xor is NOT assumed: its container sharing / operand "
+                     "update / self-alias panic are modelled (Model/C13Roaring), refuted in Lean and tied by suite heap13",
                      "roaring container layout assumed canonical (array container iff <= 4096 values per 2^16 chunk); run containers are outside the "
                      "exact model and are judged by the monitor only (suite x13)",
                      "sync.Mutex semantics (non-reentrant, modelled as an owner map); go/ast extractor tools/extract/c13"],
@@ -132,22 +152,38 @@ SPEC = {
     "explanation": "Lean: fallbacks Or/Xor proved equal to set union / symmetric difference for all operand sets; And/AndNot fallbacks (iterate the "
                    "receiver while removing from it) refuted by witness on an exact cursor model of the roaring iterator, proved correct for the "
                    "collect-then-remove repair; lock LTS with the snapshot-then-lock protocol of lock.go: linearizability and deadlock-freedom for arbitrary "
-                   "(also wrapper, also self) operands proved; the protocol before hooks/C13-fix2.patch refuted (self operand, ABBA). T-tie: lock skeleton and type-switch shapes regenerated from the source and closed by decide.",
+                   "(also wrapper, also self) operands proved; the protocol before hooks/C13-fix2.patch refuted (self operand, ABBA). Set-spec level: linearizability, CheckedAdd atomicity, snapshot semantics of a wrapper operand, the generic one-lock reduction "
+                   "(Proofs/RWLock) instantiated for both wrappers. Roaring's in-place Xor: container-identity model, three refutations, tied by heap13. "
+                   "T-tie: lock skeleton, type-switch shapes and API surface regenerated from the source and closed by decide.",
 }
 
 MANIFEST = {
     "category": "proof",
     "technique": "Lean 4 proofs about a transcription of DAWGS' type switches, fallback loops and mutex wrappers (exact cursor model of roaring's "
-                 "iterator under removal; lock-level LTS) + differential correspondence with the Go code + go/ast fact extraction closed by decide",
-    "text": "Lean theorems for all receiver and operand sets: the Or and Xor fallbacks equal union / symmetric difference; the And and AndNot fallbacks "
-            "as first written are refuted (they iterated the receiver while removing from it) and proved exact for the collect-then-remove repair now "
-            "in /repo; clones are independent; a wrapper gives the same answers as the wrapped bitmap; on the lock LTS of the snapshot-then-lock "
-            "protocol every interleaving of callers of any number of wrappers, with arbitrary (also wrapper, also self) operands, is per wrapper a "
-            "sequential order with atomically read operands, and no reachable state is deadlocked; the protocol before the repair is refuted "
-            "(self operand, ABBA). The model is compared with the real code on every ordered pairing of "
-            "{bitmap32, bitmap64, threadSafe(bitmap32), threadSafe(bitmap64)}, exhaustively on a small boundary universe and on random histories "
-            "every run; lock skeleton and type-switch shapes are re-extracted from the source every run.",
-    "note": "Trusted: Lean kernel; RoaringBitmap's native operations as exact sets (the tie found three defects of its in-place Xor, listed as known "
-            "findings); canonical container layout; sync.Mutex. Run containers and post-Xor container sharing are judged by the monitor only. "
-            "Go-memory-model races outside the lock skeleton: -race run of the concurrent suite in the thorough tier only.",
+                 "iterator under removal; lock-level LTS with snapshot-then-lock; the generic one-lock reduction shared with C16; a "
+                 "container-identity model of roaring's in-place Xor) + differential correspondence with the Go code + go/ast fact extraction "
+                 "(lock skeleton, type-switch shapes, API surface) closed by decide",
+    "text": "Lean theorems for all receiver and operand sets: the Or and Xor fallbacks equal union / symmetric difference; the And and AndNot "
+            "fallbacks as first written are refuted and proved exact for the collect-then-remove repair now in /repo; clones are independent; a "
+            "wrapper gives the same answers as the wrapped bitmap. Concurrency as theorems: every method of threadSafeDuplex/threadSafeSimplex is "
+            "one critical section (a wrapper operand is first snapshotted under ITS lock), so for any number of threads, wrappers and any "
+            "interleaving every wrapper's history is linearizable to the set spec with the answers the callers got (also via the generic "
+            "mutex reduction shared with C16), CheckedAdd answers true at most once per value (exactly once for a new value), no reachable "
+            "state is deadlocked for any receiver/operand pairing including x.Or(x) and a.Or(b) || b.Or(a), and a.Or(b) has snapshot semantics: "
+            "the operand value is b's content after a prefix of b's own linearized history, the update of a is atomic on a, and the pair is "
+            "provably not jointly atomic. The lock skeleton and the type-switch shapes are re-extracted from the source and must equal the "
+            "modelled shape; an API table (every method of Duplex/Simplex x every implementation, commutative.go's combinators) must be covered "
+            "by model operations or listed exemptions. The three defects of RoaringBitmap's in-place Xor are refuted in Lean on a "
+            "container-identity model that is itself compared with the real library on every run. Model and real code are compared on every "
+            "ordered pairing of {bitmap32, bitmap64, threadSafe(bitmap32), threadSafe(bitmap64)}, exhaustively on a small boundary universe and "
+            "on random histories every run.",
+    "note": "Trusted: Lean kernel; RoaringBitmap's native operations as exact sets EXCEPT the in-place Xor, whose three defects (known findings) are "
+            "modelled with container identity and tied by suite heap13; canonical container layout (array iff <= 4096 per chunk); run containers "
+            "(a completely full chunk) are judged by the monitor only (suite x13); sync.Mutex semantics; the go/ast extractor. The LTS treats a "
+            "delegate as read+write of the wrapped data under the lock; plain (unwrapped) operands are assumed not to be written concurrently. "
+            "Consumers in graph/types.go that take a caller-provided provider (DuplexToGraphIDs, KindBitmaps.AddDuplexToKind, "
+            "ThreadSafeKindBitmap.Or) are tied sequentially and, for DuplexToGraphIDs, probed under a concurrent writer with the oracle "
+            "'no panic, ascending, every ID was a member at some point of the run'; ops/ helpers need a database and use one Slice() call. "
+            "Go-memory-model races outside the extracted lock skeleton: -race run of the concurrent suite in the thorough tier and the "
+            "paired-Add torn-read cases in both tiers.",
 }
